@@ -63,7 +63,17 @@ def check(rep, tier):
             # the trigger time is a function of the CURRENT program: edit the program on the same object and ask again
             p2 = dict(p, holds=[dict(h, duration=h["duration"] + rng.choice([60, 300, 7])) for h in p["holds"]])
             try:
-                op.holding = [dict(h) for h in p2["holds"]]
+                if rng.random() < 0.5 and isinstance(op.holding, list) and len(op.holding) == len(p2["holds"]):
+                    # edited IN PLACE (no setter is involved): op.holding is sorted by descending temperature, as tempProfile sorts it
+                    srt = sorted(p2["holds"], key=lambda h: -h["temp"])
+                    if [h["temp"] for h in op.holding] == [h["temp"] for h in sorted(p["holds"], key=lambda h: -h["temp"])]:
+                        for hh, h2 in zip(op.holding, srt):
+                            hh["duration"] = h2["duration"]
+                    else:
+                        op.holding = [dict(h) for h in p2["holds"]]
+                    rep.count("edited-in-place")
+                else:
+                    op.holding = [dict(h) for h in p2["holds"]]
                 c_edit = int(op.cnt)
                 c_fresh = int(gen_opcond.build(p2, oc, cnTemp=cn).cnt)
                 if c_edit != c_fresh:
